@@ -31,6 +31,10 @@ ALL_EXP = 20011
 @st.composite
 def case_strategy(draw):
     coins = draw(st.lists(st.sampled_from(["0.25", "0.5", "1", "2"]), min_size=1, max_size=3))
+    # one machine in eight takes no coins at all: credits only come from events (no coin and no service switch)
+    events_only = draw(st.integers(0, 7)) == 0
+    if events_only:
+        coins = []
     price = draw(st.sampled_from(["0.25", "0.5", "0.5", "0.75", "1", "1.5", "2"]))
     tiers = []
     ntiers = draw(st.integers(0, 2))
@@ -50,12 +54,10 @@ def case_strategy(draw):
            "free_play": draw(st.sampled_from([False, False, False, True])),
            "event_credits": draw(st.sampled_from([1, 1, 2]))}
     nco = len(coins)
+    paying = [st.tuples(st.just("coin"), st.integers(0, nco - 1)).map(list), st.just(["service"]), st.just(["award"])] if nco else [
+        st.just(["award"]), st.just(["award", 2])]
     op = st.one_of(
-        st.tuples(st.just("coin"), st.integers(0, nco - 1)).map(list),
-        st.tuples(st.just("coin"), st.integers(0, nco - 1)).map(list),
-        st.tuples(st.just("coin"), st.integers(0, nco - 1)).map(list),
-        st.tuples(st.just("coin"), st.integers(0, nco - 1)).map(list),
-        st.just(["service"]), st.just(["award"]),
+        *paying,
         st.just(["start"]), st.just(["start"]), st.just(["drain"]), st.just(["end_game"]),
         st.tuples(st.just("advance"), st.sampled_from([100, 1000, 4000, 5000, 6000, 21000])).map(list),
         st.just(["toggle"]), st.just(["enable_free"]), st.just(["enable_credit"]), st.just(["slam_tilt"]),
@@ -79,7 +81,7 @@ class Model:
         self.cfg = cfg
         coins = [Fraction(c) for c in cfg["coins"]]
         price = Fraction(cfg["price"])
-        self.u = credit_unit(min(coins), price)
+        self.u = credit_unit(min(coins) if coins else price, price)    # without coin switches the unit is the game price
         self.ok = True
         vals = coins + [price] + [Fraction(t[0]) for t in cfg["tiers"]]
         if any((v / self.u).denominator != 1 for v in vals):
@@ -105,7 +107,7 @@ class Model:
         self.da = None
         self.coins_n = 0
         self.coins_sum = Fraction(0)
-        self.flags = set()
+        self.flags = set() if cfg["coins"] else {"events-only machine"}
 
     def B(self, x):
         acc = 0
@@ -129,7 +131,7 @@ class Model:
                 total += inc
                 self.c %= self.wrap
         if self.cap is not None:
-            if old + k >= self.cap - max(self.coin_units) and old < self.cap:
+            if old + k >= self.cap - max(self.coin_units + [self.g]) and old < self.cap:
                 self.flags.add("coin-near-maximum")
             total = min(total, self.cap) if old < self.cap else old
         self.units = total
@@ -162,13 +164,15 @@ def check(case):
         return Result(None, ["excluded-non-integral-units"], False, excluded="coin/price not a multiple of the credit unit")
     tiers = [{"price": float(Fraction(cfg["price"])), "credits": 1}] + [{"price": float(tp), "credits": cr} for tp, cr in cfg["tiers"]]
     credits = {
-        "max_credits": cfg["max_credits"], "free_play": cfg["free_play"], "service_credits_switch": "s_esc",
+        "max_credits": cfg["max_credits"], "free_play": cfg["free_play"],
         "switches": [{"switch": "s_coin%d" % i, "type": "money", "value": float(Fraction(c)), "label": "coin%d" % i}
                      for i, c in enumerate(cfg["coins"])],
         "events": [{"event": "award_credit", "type": "award", "credits": cfg["event_credits"]}],
         "pricing_tiers": tiers,
         "persist_credits_while_off_time": "1h",
     }
+    if cfg["coins"]:
+        credits["service_credits_switch"] = "s_esc"
     if cfg["frac_exp"]:
         credits["fractional_credit_expiration_time"] = "%dms" % FRAC_EXP
     if cfg["all_exp"]:
